@@ -969,3 +969,33 @@ Proof.
     rewrite V in G. split; assumption.
   - vm_compute in Ep. inversion Ep; subst e. vm_compute in Em. discriminate.
 Qed.
+
+(* ---------------------------------------------------------------------------------------------- *)
+(* coverage of the hypothesis [mt e = Some _] on the cases of a correspondence run (evaluated next to the
+   model/implementation comparison: on the inputs the driver marks as clean — known functions, right number
+   of arguments, no backslash in literals — the intended tree must exist, so that c17_grouping speaks about
+   them) *)
+
+Definition hyp_seg (ctx : text -> text) (raw_dates : bool) (s : seg) : bool :=
+  match s with
+  | SBody _ => true
+  | SIdent t => match canon (ctx t) with Some _ => true | None => false end
+  | SExpr t =>
+      if text_eqb t t_empty_literal then true
+      else match parse1 t with
+           | Some e => match mt ctx raw_dates e with Some _ => true | None => false end
+           | None => false
+           end
+  end.
+
+Definition check_hyp (k : lcase) : bool :=
+  forallb (hyp_seg (ctx_of (k_ctx k)) (k_raw_dates k)) (k_segs k).
+
+Fixpoint mismatches2_from (i : N) (ks : list (lcase * bool)) : list N :=
+  match ks with
+  | [] => []
+  | (k, clean) :: rest =>
+      (if check k && (negb clean || check_hyp k) then [] else [i]) ++ mismatches2_from (i + 1) rest
+  end.
+
+Definition mismatches2 (ks : list (lcase * bool)) : list N := mismatches2_from 0 ks.
